@@ -36,7 +36,7 @@ def battery(seed, n):
 
     rng = random.Random("battery/%d" % seed)
     items = []
-    kinds = ["tree", "doc", "doc", "textdoc", "headc", "jsx", "css", "classes", "attrs", "typed_attrs", "jsonmode", "retry", "shared"]
+    kinds = ["tree", "doc", "doc", "textdoc", "headc", "jsx", "css", "classes", "attrs", "typed_attrs", "jsonmode", "retry", "shared", "longtwin"]
     for i in range(n):
         k = kinds[i % len(kinds)]
         if k == "tree":
@@ -79,6 +79,10 @@ def battery(seed, n):
             # a rendering that fails inside a nested tagify(), then the same tree rendered again
             inner = {"k": "tf", "as": "flaky", "ret": "list", "c": [{"k": "text", "s": "f%d" % i}, gen.TAG("b", ws=False)]}
             items.append((k, gen.TAG("div", gen.TAG("span", {"k": "text", "s": "p"}, inner, ws=False), gen.TAG("p", {"k": "text", "s": "q"}))))
+        elif k == "longtwin":
+            # a long text with metacharacters, once as plain text and (in another item) as HTML(): which came first must not matter
+            txt = "long <b>text</b> & more " * 4 + "#%d" % (i % 3)
+            items.append((k, {"s": txt, "html": bool((i // len(kinds)) % 2), "also_attr": rng.random() < 0.5}))
         elif k == "shared":
             items.append((k, {"kids": [gen.rand_tree(rng, depth=1), {"k": "text", "s": "sh%d" % i}][: rng.randint(1, 2)],
                               "attrs": [["class_", {"t": "str", "s": "c"}], ["id", {"t": "str", "s": "i"}]][: rng.randint(0, 2)], "lone": rng.random() < 0.5}))
@@ -131,6 +135,10 @@ def _run_item(kind, r):
             ok = ok and "CHANGED-IN-PLACE" in third
         return {"html": _d(out["html"]), "deps": [d.name + "@" + str(d.version) for d in out["dependencies"]],
                 "same_when_rendered_again": ok}
+    if kind == "longtwin":
+        x = ht.HTML(r["s"]) if r["html"] else r["s"]
+        t = ht.div(x, title=r["s"]) if r["also_attr"] else ht.div(x)
+        return {"html": _d(t.get_html_string() + ht.TagList("a", x).get_html_string())}
     if kind == "shared":
         # two tags built from the same child list / attribute map; changing one must not change what the other renders
         shared_kids = ht.TagList(*[gen.build(c) for c in r["kids"]])
@@ -162,8 +170,11 @@ def _run_item(kind, r):
         deps = [gen.build(x) for x in r["deps"]]
         sers = [d.serialize_to_script_json(indent=2).get_html_string() for d in deps]
         text = "<html><head>PH</head><body>" + "".join("<p>%d</p>%s" % (i, sers[j]) for i, j in enumerate(r["order"])) + "</body></html>"
-        out = ht.HTMLTextDocument(text, deps_replace_pattern="PH").render()
-        return {"html": _d(out["html"]), "deps": [d.name + "@" + str(d.version) for d in out["dependencies"]], "ser": _d("".join(sers))}
+        doc = ht.HTMLTextDocument(text, deps_replace_pattern="PH")
+        out = doc.render()
+        again = doc.render()
+        return {"html": _d(out["html"]), "deps": [d.name + "@" + str(d.version) for d in out["dependencies"]], "ser": _d("".join(sers)),
+                "same_when_rendered_again": again["html"] == out["html"] and len(again["dependencies"]) == len(out["dependencies"])}
     if kind == "headc":
         hcs = [ht.head_content(*[gen.build(c) for c in p]) for p in r]
         out = ht.HTMLDocument(ht.div(*hcs, "x")).render()
@@ -305,7 +316,7 @@ def run(ctx):
             else:
                 continue
             break
-        ctx.case((kind, recipe), nontrivial=kind in ("doc", "textdoc", "headc", "attrs", "classes", "css", "jsx", "typed_attrs", "jsonmode", "retry"))
+        ctx.case((kind, recipe), nontrivial=kind in ("doc", "textdoc", "headc", "attrs", "classes", "css", "jsx", "typed_attrs", "jsonmode", "retry", "longtwin", "shared"))
         ctx.state("battery_kinds", kind)
         if len(seen) > 1:
             groups = list(seen.values())
@@ -369,6 +380,15 @@ def run(ctx):
             ctx.violation("head-content-name-not-content-function", "equal head content got different names", {"payload": p})
         if not hc.name.startswith("headcontent_"):
             ctx.violation("head-content-name-form", "unexpected name %r" % hc.name, {"payload": p})
+    # payloads that are one plain string or one HTML() node: still named by what they render to
+    for plain, trusted in (("a<b", "a&lt;b"), ("x&y", "x&amp;y"), ("<x>", "&lt;x&gt;"), ("p>q", "p&gt;q")):
+        a_, b_ = ht.head_content(plain), ht.head_content(ht.HTML(trusted))
+        c_, d_ = ht.head_content(plain), ht.head_content(ht.HTML(plain))
+        ctx.count("monitor.headcontent_pairs")
+        if a_.name != b_.name:
+            ctx.violation("head-content-name-not-content-function", "head_content(%r) and head_content(HTML(%r)) render the same but are named differently" % (plain, trusted), {"plain": plain})
+        if c_.name == d_.name:
+            ctx.violation("head-content-name-collision", "head_content(%r) and head_content(HTML(%r)) render differently but share a name" % (plain, plain), {"plain": plain})
     ctx.notes["headcontent_corpus"] = corpus
     ctx.notes["headcontent_distinct_contents"] = len(by_html)
     # equal content included once per document, different content never merged
